@@ -25,11 +25,23 @@
 #include <unistd.h>
 #include <type_traits>
 #include <vector>
+// Fallback builds when one of the two headers no longer compiles against this harness:
+//   -DC12_ONLY_BUFFER  everything about TransactionalBuffer only;   -DC12_ONLY_VALUE  everything about TransactionalValue only
+#if !defined(C12_ONLY_VALUE)
+#define C12_HAS_BUFFER 1
 #include "rkcommon/containers/TransactionalBuffer.h"
+#endif
+#if !defined(C12_ONLY_BUFFER)
+#define C12_HAS_VALUE 1
 #include "rkcommon/utility/TransactionalValue.h"
+#endif
 
+#ifdef C12_HAS_BUFFER
 using rkcommon::containers::TransactionalBuffer;
+#endif
+#ifdef C12_HAS_VALUE
 using rkcommon::utility::TransactionalValue;
+#endif
 
 // ---------------------------------------------------------------- inventory of executed members
 // Every call the harness makes to a member of the two classes is counted per (member, payload kind);
@@ -103,6 +115,7 @@ static std::vector<std::string> split_ws(const std::string &s)
 }
 
 // ------------------------------------------------------------------ sequential histories
+#ifdef C12_HAS_BUFFER
 template <typename T>
 static std::string seqB(const std::vector<std::string> &tok)
 {
@@ -136,6 +149,8 @@ static std::string seqB(const std::vector<std::string> &tok)
   return out.str();
 }
 
+#endif  // C12_HAS_BUFFER
+#ifdef C12_HAS_VALUE
 template <typename T>
 static std::string runV(TransactionalValue<T> &tv, const std::vector<std::string> &tok)
 {
@@ -193,6 +208,7 @@ static std::string seqVhet(const std::vector<std::string> &tok)
   return out.str();
 }
 
+#endif  // C12_HAS_VALUE
 // compile-time facts about the special members and the signatures, per instantiation
 template <typename C> static void facts_common(const char *name)
 {
@@ -206,18 +222,23 @@ template <typename C> static void facts_common(const char *name)
 }
 template <typename T> static void facts_for(const char *kind)
 {
+#ifdef C12_HAS_BUFFER
   typedef TransactionalBuffer<T> B;
-  typedef TransactionalValue<T> V;
   facts_common<B>((std::string("TransactionalBuffer<") + kind + ">").c_str());
   std::cout << " consume_returns_vector_by_value=" << std::is_same<decltype(std::declval<B &>().consume()), std::vector<T>>::value
             << " size_returns_size_t=" << std::is_same<decltype(std::declval<const B &>().size()), size_t>::value
             << " empty_returns_bool=" << std::is_same<decltype(std::declval<const B &>().empty()), bool>::value << "\n";
+#endif
+#ifdef C12_HAS_VALUE
+  typedef TransactionalValue<T> V;
   facts_common<V>((std::string("TransactionalValue<") + kind + ">").c_str());
   std::cout << " constructible_from_value=" << std::is_constructible<V, const T &>::value
             << " assignable_from_value=" << std::is_assignable<V &, const T &>::value
             << " get_returns_copy=" << std::is_same<decltype(std::declval<V &>().get()), T>::value
             << " ref_returns_mutable_reference=" << std::is_same<decltype(std::declval<V &>().ref()), T &>::value
             << " update_returns_bool=" << std::is_same<decltype(std::declval<V &>().update()), bool>::value << "\n";
+#endif
+  (void)kind;
 }
 static int mode_facts()
 {
@@ -235,22 +256,31 @@ static int mode_seq()
     auto tok = split_ws(line);
     std::string o;
     if (tok.size() >= 3 && tok[0] == "B") {
+#ifdef C12_HAS_BUFFER
       if (tok[1] == "pod") o = seqB<Pod>(tok);
       else if (tok[1] == "str") o = seqB<std::string>(tok);
       else o = seqB<std::vector<int>>(tok);
+#else
+      o = "<not built: buffer>";
+#endif
     } else if (tok.size() >= 3 && tok[0] == "V") {
+#ifdef C12_HAS_VALUE
       if (tok[1] == "het") o = seqVhet(tok);
       else if (tok[1] == "pod") o = seqV<int>(tok);
       else if (tok[1] == "str") o = seqV<std::string>(tok);
       else o = seqV<std::vector<int>>(tok);
+#else
+      o = "<not built: value>";
+#endif
     }
     std::cout << o << "\n";
   }
   return 0;
 }
 
-// ------------------------------------------------------------------------ stress: buffer
 static inline void spin(int n) { for (volatile int i = 0; i < n; ++i) {} }
+// ------------------------------------------------------------------------ stress: buffer
+#ifdef C12_HAS_BUFFER
 
 template <typename T>
 static int stressbuf(int nprod, long npush, int spinN, const char *tracePath)
@@ -499,6 +529,8 @@ static int seqbig(int nprod, long N, const char *tracePath)
   return 0;
 }
 
+#endif  // C12_HAS_BUFFER
+#ifdef C12_HAS_VALUE
 // ------------------------------------------------ value: bursts of assignments between two update() calls
 template <typename T>
 static int stressvalburst(const char *tracePath)
@@ -605,7 +637,7 @@ static int stressval(long n, int spinN, const char *tracePath)
       if (q == n) break;
     }
     if (spinN) spin(spinN);
-    else if (!u) std::this_thread::yield();   // nothing new: let the producer run (matters on a loaded machine)
+    if (!u) std::this_thread::yield();        // nothing new: let the producer run (matters on a loaded machine)
   }
   prod.join();
   if (prev != n) fails.push_back("after the producer finished, update()+get() gave " + std::to_string(prev) + ", last assigned " + std::to_string(n));
@@ -628,12 +660,15 @@ static int stressval(long n, int spinN, const char *tracePath)
   return 0;
 }
 
+#endif  // C12_HAS_VALUE
+
 int main(int argc, char **argv)
 {
   std::string mode = argc > 1 ? argv[1] : "seq";
   if (mode == "seq") return mode_seq();
   if (mode == "facts") return mode_facts();
   std::string kind = argc > 2 ? argv[2] : "pod";
+#ifdef C12_HAS_BUFFER
   if (mode == "stressbuf") {
     int nprod = argc > 3 ? std::atoi(argv[3]) : 2;
     long npush = argc > 4 ? std::atol(argv[4]) : 1000;
@@ -651,12 +686,16 @@ int main(int argc, char **argv)
     if (kind == "str") return seqbig<std::string>(nprod, N, tp);
     return seqbig<std::vector<int>>(nprod, N, tp);
   }
+#endif
+#ifdef C12_HAS_VALUE
   if (mode == "stressvalburst") {
     const char *tp = argc > 3 ? argv[3] : nullptr;
     if (kind == "pod") return stressvalburst<int>(tp);
     if (kind == "str") return stressvalburst<std::string>(tp);
     return stressvalburst<std::vector<int>>(tp);
   }
+#endif
+#ifdef C12_HAS_BUFFER
   if (mode == "stressobs") {
     int nprod = argc > 3 ? std::atoi(argv[3]) : 2;
     long bursts = argc > 4 ? std::atol(argv[4]) : 100;
@@ -666,6 +705,8 @@ int main(int argc, char **argv)
     if (kind == "str") return stressobs<std::string>(nprod, bursts, blen, tp);
     return stressobs<std::vector<int>>(nprod, bursts, blen, tp);
   }
+#endif
+#ifdef C12_HAS_VALUE
   if (mode == "stressval") {
     long n = argc > 3 ? std::atol(argv[3]) : 1000;
     int sp = argc > 4 ? std::atoi(argv[4]) : 0;
@@ -674,6 +715,8 @@ int main(int argc, char **argv)
     if (kind == "str") return stressval<std::string>(n, sp, tp);
     return stressval<std::vector<int>>(n, sp, tp);
   }
-  std::cerr << "unknown mode\n";
+#endif
+  (void)kind;
+  std::cerr << "unknown mode (or not built into this harness variant)\n";
   return 2;
 }
